@@ -236,16 +236,20 @@ extern "C" int LLVMFuzzerTestOneInput(const uint8_t *data, size_t size) {
 	for (int dec = 0; dec < D_N; ++dec) { if ((dec == D_MT_CONCAT || dec == D_MT_FAILFAST) && B.kind != K_XZ) continue; drv::Result R = decode(B, dec, B.bytes.data(), B.bytes.size());
 		bool single = dec == D_ST_SINGLE; size_t want = single ? B.plain_end[0] : B.plain.size();
 		if (R.ret != LZMA_STREAM_END || R.out.size() != want || (want && memcmp(R.out.data(), B.plain.data(), want))) violation("C01:roundtrip", "%s: undamaged file: decoder %s gives %s / %zu bytes", B.desc.c_str(), dec_names[dec], drv::retname(R.ret), R.out.size()); }
-	// ---- exhaustive single-bit flips
+	// ---- exhaustive single-bit flips (base files above 1200 bytes - incompressible plaintext - are rare and would cost minutes per case:
+	// there every stride-th bit and length is taken, the structures outside the payload are still covered by the CRC-consistent edits)
+	const size_t nbits = B.bytes.size() * 8; const size_t stride = B.bytes.size() > 1200 ? (nbits + 2399) / 2400 : 1, phase = stride > 1 ? (size_t)(hash_bytes(data, size) % stride) : 0;
+	if (stride > 1) count("large_base_file_faults_sampled_every_nth");
 	std::vector<uint8_t> dam = B.bytes;
 	for (size_t i = 0; i < B.bytes.size(); ++i) for (unsigned bit = 0; bit < 8; ++bit) {
+		if (stride > 1 && (i * 8 + bit) % stride != phase) continue;
 		dam[i] ^= (uint8_t)(1u << bit);
 		bool np = B.kind == K_XZ && strcmp(field_of(B, i), "non-payload") == 0;
 		check_one(J, dam, "bitflip", i, i + 1, np, false, bit == 0 || bit == 7); ++J.flips; // threaded decoder: two of the eight flips per byte (thread start-up cost)
 		dam[i] = B.bytes[i];
 	}
 	// ---- exhaustive truncations
-	for (size_t t = 0; t < B.bytes.size(); ++t) { std::vector<uint8_t> tr(B.bytes.begin(), B.bytes.begin() + t); check_one(J, tr, "truncate", t, B.bytes.size(), false, true); ++J.truncs; }
+	for (size_t t = 0; t < B.bytes.size(); ++t) { if (stride > 1 && t % ((stride + 7) / 8) != 0 && t + 64 < B.bytes.size() && t > 64) continue; std::vector<uint8_t> tr(B.bytes.begin(), B.bytes.begin() + t); check_one(J, tr, "truncate", t, B.bytes.size(), false, true); ++J.truncs; }
 	// ---- exhaustive Stream Padding lengths 0..9 at every padding position of an .xz base file: valid iff a multiple of 4
 	uint64_t padvars = 0;
 	if (B.kind == K_XZ) for (size_t si = 0; si < B.stream_end.size(); ++si) {
